@@ -204,7 +204,15 @@ def c07_prune_vals(c, vals):
     return tuple(v for v in vals if not (isinstance(v, tuple) and v and v[0] == "segvals" and c13._provably_zero(c, v[1])))
 
 
-GROUPS = {"import": g_import, "import_from": g_import_from, "canary": c13.g_canary}
+def g_witness(R, tier):
+    from suites import c06
+    c06.native_finding(R, "pending_nodes.PendingImport.get_result/W1-import-a.b-as-c-binds-the-attribute-of-the-package",
+                       "`import a.b as c` binds what `a.b` is after the import -- the ATTRIBUTE b of package a (IMPORT_FROM, since 3.7) -- not sys.modules['a.b']; "
+                       "importlib.import_module('a.b') returns the latter. They differ when the package rebinds the name (unittest/__init__.py binds unittest.main to a class)",
+                       "import unittest.main as m\nimport unittest\nr = (m is unittest.main, type(m).__name__)\n")
+
+
+GROUPS = {"witness": g_witness, "import": g_import, "import_from": g_import_from, "canary": c13.g_canary}
 
 
 def replay_imports(rp):
